@@ -1545,6 +1545,14 @@ func (ip *Interp) convert(fr *frame, dst ssa.Value, src ssa.Value, st *State) {
 	if fromF && toI && !(isIntLike(t.Typ)) {
 		st.addEffect(&Effect{Kind: EConvert, Pos: dst.Pos(), Fn: fr.fn, Stack: fr.stack, Sites: fr.sites, Val: r, Idx: t, Typ: dst.Type(), Note: typeKey(dst.Type()) + " <- " + typeKey(t.Typ)})
 	}
+	// an integer -> integer conversion that cannot represent every source value (narrower, or a sign change):
+	// the shape engines read integers mathematically, so these are obligations of rule I0 (rulelib.go)
+	if isIntLike(t.Typ) && isIntLike(dst.Type()) && !isTypeParam(t.Typ) && !isTypeParam(dst.Type()) && !t.IsConst() {
+		from, to := kindOf(t.Typ), kindOf(dst.Type())
+		if from.OK && to.OK && !(from.Signed == to.Signed && to.Bits >= from.Bits) && !(!from.Signed && to.Signed && to.Bits > from.Bits) {
+			st.addEffect(&Effect{Kind: ENarrow, Pos: dst.Pos(), Fn: fr.fn, Stack: fr.stack, Sites: fr.sites, Val: r, Idx: t, Typ: dst.Type(), Note: "narrowing " + typeKey(dst.Type()) + " <- " + typeKey(t.Typ)})
+		}
+	}
 	fr.env[dst] = r
 }
 
@@ -2167,6 +2175,11 @@ func (ip *Interp) appendBuiltin(fr *frame, args []Val, resT types.Type, st *Stat
 	note := "grows"
 	if verdict == Unknown {
 		note = "may grow"
+		// when it does not grow, the appended elements are written into the spare capacity of the old storage
+		if !s.Nil && s.Stor != nil {
+			dst := SliceV{Stor: s.Stor, Off: mkBin(token.ADD, s.Off, s.Len, intT), Len: n, Cap: mkBin(token.SUB, s.Cap, s.Len, intT), Elem: s.Elem}
+			st.addEffect(&Effect{Kind: ECopy, Pos: pos, Fn: fr.fn, Stack: fr.stack, Sites: fr.sites, Stor: s.Stor, Dst: &dst, Src: &t, N: n, Note: "append may write in place"})
+		}
 	}
 	st.addEffect(&Effect{Kind: EGrow, Pos: pos, Fn: fr.fn, Stack: fr.stack, Sites: fr.sites, Stor: g, Dst: &s, Src: &t, N: n, Note: note, Heap: true})
 	st.addEffect(&Effect{Kind: EAlloc, Pos: pos, Fn: fr.fn, Stack: fr.stack, Sites: fr.sites, Stor: g, Note: "append " + note, Heap: true})
